@@ -297,10 +297,14 @@ class BasisSHO(BasisSet):
                 mat = self.dvr_v.T @ mat @ self.dvr_v
 
         elif op_symbol == "x p":
+            # x p = (y + x0) p with y = (b^\dagger + b) / sqrt(2w), p = i sqrt(w/2) (b^\dagger - b)
             mat = -1.0j/2 *(self.op_mat(r"b b")
                     - self.op_mat(r"b^\dagger b^\dagger")
-                    + self.op_mat(r"b b^\dagger")
-                    - self.op_mat(r"b^\dagger b"))
+                    - self.op_mat(r"b b^\dagger")
+                    + self.op_mat(r"b^\dagger b"))
+            mat = mat + self.x0 * 1j * np.sqrt(self.omega / 2) * (self.op_mat(r"b^\dagger") - self.op_mat("b"))
+            if self.dvr:
+                mat = self.dvr_v.T @ mat @ self.dvr_v
 
         elif op_symbol == "x dx":
             # x dx is real, while x p is imaginary
@@ -309,8 +313,11 @@ class BasisSHO(BasisSet):
         elif op_symbol == "p x":
             mat = -1.0j/2 *(self.op_mat(r"b b")
                     - self.op_mat(r"b^\dagger b^\dagger")
-                    - self.op_mat(r"b b^\dagger")
-                    + self.op_mat(r"b^\dagger b"))
+                    + self.op_mat(r"b b^\dagger")
+                    - self.op_mat(r"b^\dagger b"))
+            mat = mat + self.x0 * 1j * np.sqrt(self.omega / 2) * (self.op_mat(r"b^\dagger") - self.op_mat("b"))
+            if self.dvr:
+                mat = self.dvr_v.T @ mat @ self.dvr_v
 
         elif op_symbol == "dx x":
             mat = (self.op_mat("p x") / -1.0j).real
